@@ -464,6 +464,44 @@ func runC16(c *Ctx) {
 			}
 		})
 		c.Check(okH && okY, "O16.5", fk(rac)+":notation-chosen-by-extension", rac.Pos(), fmt.Sprintf("ParseHCLFile/ConvertHCLToAmmo only on the .hcl edge: %v; ParseAmmoConfig only on the non-.hcl edge: %v", okH, okY))
+		// an extension is the END of the file name: every test of the name against a constant that looks like an
+		// extension is strings.HasSuffix, and every extension the "file extension should be ..." message promises is
+		// tested (a description in scenario.yml must load like its .yaml and .hcl twins)
+		tested := map[string]bool{}
+		EachInstr(rac, func(in ssa.Instruction) {
+			cl, ok := in.(*ssa.Call)
+			if !ok || len(cl.Call.Args) != 2 {
+				return
+			}
+			f := CalleeObj(&cl.Call)
+			if f == nil || f.Pkg() == nil || f.Pkg().Path() != "strings" {
+				return
+			}
+			ext, isS := ConstString(cl.Call.Args[1])
+			if !isS || len(ext) < 2 || ext[0] != '.' {
+				return
+			}
+			if f.Name() == "HasSuffix" {
+				tested[ext] = true
+				return
+			}
+			c.Bad("O16.5", fk(rac)+":extension-tested-as-suffix:"+ext, cl.Pos(), fmt.Sprintf("the file name is tested against %q with strings.%s: an extension must be tested with HasSuffix (a file named scenario%s is rejected, one named %sfoo accepted)", ext, f.Name(), ext, ext))
+		})
+		EachInstr(rac, func(in ssa.Instruction) {
+			cl, ok := in.(*ssa.Call)
+			if !ok || !MatchCC(&cl.Call, Spec{"fmt", "", "Errorf"}) {
+				return
+			}
+			msg, isS := ConstString(cl.Call.Args[0])
+			if !isS || !strings.Contains(msg, "extension") {
+				return
+			}
+			for _, w := range strings.FieldsFunc(msg, func(r rune) bool { return r == ' ' || r == ',' }) {
+				if len(w) > 1 && w[0] == '.' {
+					c.Check(tested[w], "O16.5", fk(rac)+":promised-extension-is-accepted:"+w, cl.Pos(), "the error message names "+w+" as an accepted extension; a HasSuffix test for it must exist")
+				}
+			}
+		})
 	}
 
 	// ---------------- O16.6
